@@ -16,7 +16,7 @@ import ast
 
 from rsx.ctor import bind_args, MISSING
 from .common import (AnalysisError, Finding, RuleResult, ClassInfo, ntext, walk_no_nested,
-                     is_self_attr, body_stmts)
+                     is_self_attr, body_stmts, MustFlow)
 
 RULE = 'R25'
 TEXT = ('operators that rebuild an expression from self pass on every constructor field; a '
@@ -237,6 +237,7 @@ def run(repo):
                                              'sum()) cannot reach the compiled program or the evaluator'
                                              % (ci.fq, t.attr, t.attr), repo.where(init, n),
                                              {'props': ['C06', 'C12']}))
+    fixed_flag_dependency(repo, res)
     return res
 
 
@@ -251,3 +252,65 @@ def _props(ci, p):
     if ci.name.startswith('Dec') and p in ('ctype', 'event_adapt', 'fixed'):
         return ['C04', 'C13', 'C06'] if p == 'ctype' else ['C13', 'C06']
     return ['C06', 'C12']
+
+
+# ----------------------------------------------------------------------------- (d) the `fixed` flag only decays
+def fixed_flag_dependency(repo, res):
+    """A DecAffine rebuilt from `self` inside a DecAffine method is static (fixed=True) only if `self` is:
+    on every path to the construction, the value handed over as `fixed` depends on self.fixed (it is
+    self.fixed, or a local whose reaching definition mentions self.fixed, directly or through its own
+    previous value).  `fixed` is the only guard against products of adaptive decisions with random
+    variables and against convex atoms of decision rules (C10, C13)."""
+    ci = repo.cls('lp.DecAffine')
+    init = repo.resolve_method(ci, '__init__')
+    n_sites = 0
+    for name, fi in sorted(ci.methods.items()):
+        if name == '__init__' or fi.absorbed:
+            continue
+        sites = [n for n in walk_no_nested(fi.node) if isinstance(n, ast.Call) and isinstance(n.func, ast.Name)
+                 and n.func.id == 'DecAffine']
+        if not sites:
+            continue
+        site_ids = {id(c) for c in sites}
+        verdicts = {}
+
+        class _Dep(MustFlow):
+            def refine(self, test, branch, state):
+                return state
+
+            def transfer(self, node, state):
+                if isinstance(node, ast.Assign) and len(node.targets) == 1 and isinstance(node.targets[0], ast.Name):
+                    v = node.targets[0].id
+                    dep = any(is_self_attr(x, 'fixed') for x in ast.walk(node.value)) or \
+                        (('dep', v) in state and any(isinstance(x, ast.Name) and x.id == v for x in ast.walk(node.value)))
+                    # a local that depends on a dependent local
+                    dep = dep or any(isinstance(x, ast.Name) and ('dep', x.id) in state for x in ast.walk(node.value))
+                    state = state - {('dep', v)}
+                    if dep:
+                        state = state | {('dep', v)}
+                return state
+
+            def visit(self, node, state):
+                for c in ast.walk(node):
+                    if id(c) in site_ids:
+                        env = bind_args(init, c) or {}
+                        fx = env.get('fixed')
+                        if fx is None:
+                            continue
+                        ok = any(is_self_attr(x, 'fixed') for x in ast.walk(fx)) or \
+                            any(isinstance(x, ast.Name) and ('dep', x.id) in state for x in ast.walk(fx))
+                        verdicts[id(c)] = (c, fx, verdicts.get(id(c), (None, None, True))[2] and ok)
+        _Dep().run(body_stmts(fi))
+        for c, fx, ok in verdicts.values():
+            n_sites += 1
+            res.functions.add(fi.fq)
+            res.inst({'method': fi.fq, 'fixed_argument': ntext(fx)[:40], 'depends_on_self.fixed': ok}, ok)
+            if not ok:
+                res.fail(Finding(RULE, fi.fq, 'fixed flag does not depend on self.fixed',
+                                 '%s builds a DecAffine with fixed=%s, which on some path does not depend on '
+                                 'self.fixed: an adaptive (affinely dependent) decision comes out flagged static, and '
+                                 'the guards against decision-rule x random-variable products and convex atoms of '
+                                 'decision rules no longer see it' % (fi.fq, ntext(fx)[:40]), repo.where(fi, c),
+                                 {'props': ['C10', 'C13', 'C06']}))
+    if n_sites < 5:
+        raise AnalysisError('only %d DecAffine(.., fixed=..) constructions found in DecAffine methods' % n_sites)
